@@ -20,15 +20,16 @@
      TaskFailure): refinement up to resource exhaustion, the resource side being what C03 / C04 /
      C05 state.  [PUnspec] results are outside the claim.
 
-   compile_correct is PROVED FOR SIX NESTED FRAGMENTS of the language (second half of this file:
-   C01_compile_correct_f1 .. _f5, C01_compile_correct_f6r, C01_fragments_well_scoped), against the merged models
+   compile_correct is PROVED FOR EIGHT NESTED FRAGMENTS of the language (second half of this file:
+   C01_compile_correct_f1 .. _f5, C01_compile_correct_f6r, C01_compile_correct_f6_partial, C01_compile_correct_f8,
+   C01_fragments_well_scoped), against the merged models
    Compiler.compile, C15Link.to_vm, Vm.run and RefSem.eval_program: programs that consist of `main`
-   alone, over integer / nil globals and local variables of main, with arithmetic, comparison and boolean operators, global
+   alone, over integer / nil globals and local variables, with arithmetic, comparison and boolean operators, global
    assignment, IfTrue / IfFalse / IfElse, Composite, While and Repeat (with or without the loop variable), nested
-   at will (the while-language with for-loops); the resource side is explicit (hypotheses on expression depth
-   and budget).  For everything else (reals, a Repeat body that declares locals, ForEach, calls, tables,
-   closures, natives) the claim is
-   carried by the differential check C01Check (the real compiler + VM against eval_program). *)
+   at will, where locals are declared in main, in Repeat bodies (popped at the end of every round) and inside
+   Composite cards in such positions (the while-language with for-loops and block-local variables); the resource
+   side is explicit (hypotheses on stack depth and budget).  STILL OPEN - carried by the differential check
+   C01Check (the real compiler + VM against eval_program) only: reals, ForEach, calls, tables, closures, natives. *)
 From Coq Require Import List NArith ZArith Bool Arith String Ascii.
 Import ListNotations.
 From Cao Require Import CardAst RefSem RefScope RefSemProofs.
@@ -793,7 +794,7 @@ Proof. vm_compute. repeat split; reflexivity. Qed.
    the end of each round as well) and ForEach.  The gap is on the compiler side of the proof only: the
    statement induction of C01SimComp7 / C01SimF7 keeps the local context fixed through a statement
    (emits6 Ld d Ld d, lnames R' = lnames R); the reference side (inv) already allows declarations in
-   inner scopes.  The differential check C01Check covers those programs. *)
+   inner scopes.  (The body-local declarations are fragment F8 below, C01_compile_correct_f8; ForEach is open.) *)
 From Cao Require C01SimDefs7 C01SimF7.
 
 Theorem C01_compile_correct_f6_partial :
@@ -875,9 +876,106 @@ Example C01_compile_correct_f6_partial_instance_ok :
   end.
 Proof. vm_compute. repeat split; reflexivity. Qed.
 
-(* the seven fragments are nested, and every program of them is in the class property C01 quantifies
+(* ==== fragment F8: declarations in scopes - Repeat bodies with locals of their own ====
+   (C01SimDefs8.in_f8.)  F6 above plus: a  SetVar x e  of a NEW name x in every declaring position - directly in
+   main, directly as the body of a Repeat, and inside Composite cards standing in such a position (nested at
+   will: RefScope.well_scoped's rule for this part of the language; the branches of If* and the body of a While
+   are not declaring positions - the compiler opens no scope there -, a Repeat inside them is, again).  The body
+   of a Repeat is a scope: the compiler puts the locals it declares above the two hidden locals and the loop
+   variable and scope_end pops them, with the loop variable, at the end of every round (code8: `repeat IPop`);
+   RefSem drops the environment of the body after each round.  A body-local may shadow a local of an outer
+   scope or a global and is gone behind the loop (a read there names the outer variable, or is VarNotFound).
+   This closes the gap left by C01_compile_correct_f6_partial except for ForEach.
+   depth_ok8: the locals that can be declared plus the temporaries on the deepest path fit the value stack
+   (C01SimDefs8.seq_depth8 + 1 < 256). *)
+From Cao Require C01SimDefs8 C01SimF8.
+
+Theorem C01_compile_correct_f8 :
+  forall (F : Vm.fops) (bld : Vm.build) (M : module) (B : Compiler.compiled) (fuel : nat) (host : list str) (o : obs),
+    C01SimDefs8.in_f8 M = true ->
+    C01SimDefs8.depth_ok8 (C01SimDefs.main_cards M) = true ->
+    Compiler.compile M CompilerProofs.default_options = Compiler.COk B ->
+    (N.of_nat (List.length (Compiler.p_ids B)) < Bits.two32)%N ->
+    (N.of_nat (List.length (Compiler.p_bytecode B)) < 2147483648)%N ->
+    eval_program fuel M host = PObs o ->
+    exists N0 : nat, forall budget : nat, N0 <= budget ->
+      let r := Vm.run F bld budget (C15Link.to_vm B) Vm.fresh_state in
+      C01SimDefs.vm_kind (fst r) = Some (ob_kind o) /\
+      forall n, C01SimDefs.no_collision (C01SimDefs8.gnames_seq8 [] (C01SimDefs.main_cards M)) n ->
+        option_map C01SimDefs.vm_tree (Vm.read_var_by_name (C15Link.to_vm B) (snd r) n) = assoc n (ob_globals o).
+Proof. exact C01SimF8.compile_correct_f8. Qed.
+Print Assumptions C01_compile_correct_f8.
+
+(* an instance: a body-local sq of the outer loop that an inner loop (with a local t of its own) reassigns, a
+   Repeat with a declaring body inside a conditional inside a Repeat body, a body-local w of a loop without loop
+   variable, a declaration inside a top-level Composite, and a read of the body-local sq behind its loop
+   (VarNotFound: sq is gone) *)
+Definition f8_example : module :=
+  prog [("main", fn []
+    [CSetVar (s "sum") (CScalarInt 0);
+     CRepeat (Some (s "i")) (CScalarInt 4)
+       (CComposite (s "")
+          [CSetVar (s "sq") (CBin BMul (CReadVar (s "i")) (CReadVar (s "i")));      (* a local of the body *)
+           CSetVar (s "sum") (CBin BAdd (CReadVar (s "sum")) (CReadVar (s "sq")));
+           CRepeat None (CReadVar (s "i"))
+             (CComposite (s "")
+                [CSetVar (s "t") (CBin BAdd (CReadVar (s "sq")) (CScalarInt 1));    (* a local of the inner body *)
+                 CSetVar (s "sq") (CReadVar (s "t"));                               (* assigns the outer body's sq *)
+                 CSetGlobalVar (s "last") (CReadVar (s "t"))]);
+           CBin BIfTrue (CBin BLess (CScalarInt 1) (CReadVar (s "i")))
+             (CRepeat (Some (s "j")) (CScalarInt 2) (CSetVar (s "u") (CBin BAdd (CReadVar (s "j")) (CReadVar (s "sq")))));
+           CSetVar (s "sum") (CBin BAdd (CReadVar (s "sum")) (CReadVar (s "sq")))]);
+     CSetGlobalVar (s "result") (CReadVar (s "sum"));
+     CRepeat None (CScalarInt 2) (CSetVar (s "w") (CScalarInt 5));
+     CComposite (s "") [CSetVar (s "z") (CScalarInt 9); CSetGlobalVar (s "zz") (CReadVar (s "z"))];
+     CSetGlobalVar (s "sq") (CReadVar (s "sq"));                                     (* sq is gone: VarNotFound *)
+     CSetGlobalVar (s "never") (CScalarInt 1)])].
+Example C01_compile_correct_f8_instance :
+  match Compiler.compile f8_example CompilerProofs.default_options, eval_program 3000 f8_example [] with
+  | Compiler.COk B, PObs o =>
+      C01SimDefs8.in_f8 f8_example = true /\ C01SimDefs7.in_f7 f8_example = false /\
+      C01SimDefs8.depth_ok8 (C01SimDefs.main_cards f8_example) = true /\
+      (N.of_nat (List.length (Compiler.p_ids B)) <? Bits.two32)%N = true /\
+      (N.of_nat (List.length (Compiler.p_bytecode B)) <? 2147483648)%N = true /\
+      (ob_kind o, ob_globals o) =
+        (KErr EVarNotFound, [(s "last", TrInt 12); (s "result", TrInt 34); (s "zz", TrInt 9)]) /\
+      let r := Vm.run no_floats Vm.Debug 3000 (C15Link.to_vm B) Vm.fresh_state in
+      C01SimDefs.vm_kind (fst r) = Some (ob_kind o) /\
+      map (fun n => option_map C01SimDefs.vm_tree (Vm.read_var_by_name (C15Link.to_vm B) (snd r) n))
+          [s "result"; s "last"; s "zz"; s "sq"; s "never"; s "sum"; s "t"; s "w"]
+      = map (fun n => assoc n (ob_globals o)) [s "result"; s "last"; s "zz"; s "sq"; s "never"; s "sum"; s "t"; s "w"]
+  | _, _ => False
+  end.
+Proof. vm_compute. repeat split; reflexivity. Qed.
+
+(* ... and a run that reaches the end of main (everything popped before Exit): the sum of the squares below 5
+   with the square in a local of the loop body; the R-2 witness shape without the closures *)
+Definition f8_example_ok : module :=
+  prog [("main", fn []
+    [CSetGlobalVar (s "result") (CScalarInt 0);
+     CRepeat (Some (s "i")) (CScalarInt 5)
+       (CComposite (s "c")
+          [CSetVar (s "x") (CBin BMul (CReadVar (s "i")) (CReadVar (s "i")));
+           CSetVar (s "y") (CBin BAdd (CReadVar (s "x")) (CReadVar (s "result")));
+           CSetGlobalVar (s "result") (CReadVar (s "y"))])])].
+Example C01_compile_correct_f8_instance_ok :
+  match Compiler.compile f8_example_ok CompilerProofs.default_options, eval_program 600 f8_example_ok [] with
+  | Compiler.COk B, PObs o =>
+      C01SimDefs8.in_f8 f8_example_ok = true /\ C01SimDefs7.in_f7 f8_example_ok = false /\
+      C01SimDefs8.depth_ok8 (C01SimDefs.main_cards f8_example_ok) = true /\
+      (ob_kind o, ob_globals o) = (KOk, [(s "result", TrInt 30)]) /\
+      let r := Vm.run no_floats Vm.Release 400 (C15Link.to_vm B) Vm.fresh_state in
+      C01SimDefs.vm_kind (fst r) = Some (ob_kind o) /\
+      Stacks.vcount (Vm.st_stack (snd r)) = 0 /\
+      map (fun n => option_map C01SimDefs.vm_tree (Vm.read_var_by_name (C15Link.to_vm B) (snd r) n)) [s "result"; s "i"; s "x"; s "y"]
+      = map (fun n => assoc n (ob_globals o)) [s "result"; s "i"; s "x"; s "y"]
+  | _, _ => False
+  end.
+Proof. vm_compute. repeat split; reflexivity. Qed.
+
+(* the eight fragments are nested, and every program of them is in the class property C01 quantifies
    over: the theorems above are instances of compile_correct, not statements about other programs *)
-From Cao Require C01SimScope.
+From Cao Require C01SimScope C01SimScope8.
 Theorem C01_fragments_well_scoped :
   forall M : module,
     (C01SimDefs.in_f1 M = true -> C01SimDefs2.in_f2 M = true) /\
@@ -886,6 +984,7 @@ Theorem C01_fragments_well_scoped :
     (C01SimDefs4.in_f4 M = true -> C01SimDefs5.in_f5 M = true) /\
     (C01SimDefs5.in_f5 M = true -> C01SimDefs6.in_f6 M = true) /\
     (C01SimDefs6.in_f6 M = true -> C01SimDefs7.in_f7 M = true) /\
-    (C01SimDefs7.in_f7 M = true -> well_scoped M = true).
-Proof. exact C01SimScope.fragments_well_scoped. Qed.
+    (C01SimDefs7.in_f7 M = true -> C01SimDefs8.in_f8 M = true) /\
+    (C01SimDefs8.in_f8 M = true -> well_scoped M = true).
+Proof. exact C01SimScope8.fragments_well_scoped8. Qed.
 Print Assumptions C01_fragments_well_scoped.
